@@ -291,11 +291,20 @@ class FakeFile:
                 f = F.files.setdefault(self.path, File(False))
             f.exists, f.size, f.content = True, 0, []
             self.pos = 0
+        elif "a" in mode:
+            if f is None or not builtins.bool(f.exists):
+                F.mutate("create", self.path, mode=mode)
+                if f is None:
+                    f = F.files.setdefault(self.path, File(False))
+                f.exists, f.size, f.content = True, 0, []
+            else:
+                F.mutate("open_append", self.path, mode=mode)
+            self.pos = f.size
         else:
             if f is None or not builtins.bool(f.exists):
                 raise FileNotFoundError(f"[Errno 2] No such file or directory: '{self.path}'")
             F.mutate("open_read", self.path, mutating=False)
-            self.pos = f.size if "a" in mode else 0
+            self.pos = 0
         self.f = f
         self.writing = writing
 
